@@ -1,6 +1,6 @@
 (* Extraction of the boolean trace predicates that the theorems are about, so that they can be evaluated on the CRATE's traces
    (runner/montool.ml parses a trace line back into events).  ExtrOcamlBasic only. *)
-Require Import ScanFull InstsFull Pass C11Groups C03Merge PassProofs GhostTrace Monitors.
+Require Import ScanFull InstsFull Pass C11Groups C03Merge C08Eager PassProofs GhostTrace Monitors.
 Require Extraction.
 Require Import ExtrOcamlBasic.
-Extraction "../runner/mon.ml" mon16 chk chkN once_b runC runK runE bal_b strip polls_from.
+Extraction "../runner/mon.ml" mon16 chk chkN once_b runC runK runE eager_b bal_b strip polls_from.
